@@ -36,6 +36,7 @@ type c10Case struct {
 	CustomRec bool   `json:"custom_recover_handler"`
 	RouteEnc  bool   `json:"encoding_via_route_override"`
 	Value     string `json:"panic_value"` // ptr | string | error | runtime | abort (http.ErrAbortHandler)
+	Cancelled bool   `json:"request_context_already_cancelled"`
 }
 
 type c10Env struct {
@@ -192,7 +193,14 @@ func (e *c10Env) send(k *c10Case, path, panicAt string) *c10Resp {
 	l := &wlog{}
 	e.curLog, e.curPos = l, panicAt
 	hr := rt.HTTPRequest(&req, nil)
-	hr = hr.WithContext(context.WithValue(context.Background(), wlogKey{}, l))
+	cctx := context.WithValue(context.Background(), wlogKey{}, l)
+	if k.Cancelled && panicAt != "" {
+		// the client has gone away: the request's context is cancelled before the panic happens
+		var cancel context.CancelFunc
+		cctx, cancel = context.WithCancel(cctx)
+		cancel()
+	}
+	hr = hr.WithContext(cctx)
 	rec := rt.NewRec()
 	out := &c10Resp{}
 	func() {
@@ -282,6 +290,7 @@ func c10(ctx *core.Ctx) {
 			continue
 		}
 		k := &cases[ci]
+		k.Cancelled = ci%4 == 3
 		if ci%50 == 0 || ctx.OnlyCase >= 0 {
 			ctx.Case(ci, core.JSON(k))
 		}
